@@ -295,7 +295,7 @@ theorem loadSub_dedup (z : Zip) (placed : Placed) (hg : Good z placed) (hx : Goo
     rw [mem_dedup] at hl
     simp only [List.mem_map] at hl
     obtain ⟨p, hp, e⟩ := hl
-    exact ⟨_, _, e.symm, (hg.holds p (hsub p hp)).1⟩
+    exact ⟨_, _, e.symm, (hg.holds p (hsub p hp)).1, by simp [inManifest_placed sub p hp]⟩
 
 /-- reloading a zip written by the saver yields the saved signatures in save order, each once -/
 theorem zipLoad_good_dedup (z : Zip) (placed : Placed) (hg : Good z placed) (hx : GoodX z) :
